@@ -73,7 +73,8 @@ Inductive fk :=
 | KDelete                                   (* Delete: locate the node *)
 | KUnlink                                   (* deleteNode: trailing findPath after a successful mark *)
 | KSeek                                     (* Iterator.Seek *)
-| KIterNext (last : nat).                   (* Iterator.Next: re-search after a failed helpDelete *)
+| KIterNext (last : nat)                    (* Iterator.Next: re-search after a failed helpDelete *)
+| KRefresh.                                 (* Iterator.Refresh at the end of every k-th Next: Seek to the current item *)
 
 (** path buffer: preds/succs per level (index = level) *)
 Record buf := mkBuf { preds : list nat; succs : list nat }.
@@ -115,15 +116,18 @@ Inductive op :=
 | ODelete (k : Z)
 | ODeleteNode (k : Z)                (* DeleteNode on the node most recently inserted with key k by this thread *)
 | OLookup (k : Z)
-| OSeekFirst | OSeek (k : Z) | ONext.
+| OSeekFirst | OSeek (k : Z) | ONext
+| OSetRefresh (k : nat).              (* Iterator.SetRefreshInterval(k), k >= 1 *)
 
 Inductive result :=
 | RBool (b : bool)
 | RIter (valid : bool) (k : Z).      (* iterator position after the op: Valid and the key it stands on *)
 
 (** per-thread persistent state: the iterator, and the nodes this thread inserted (key -> node) *)
-Record pers := mkPers { p_it : itst; p_nodes : list (Z * nat) }.
-Definition pers0 : pers := mkPers (mkIt hd_id tl_id false) [].
+(** ... and the iterator's step counter and refresh interval (0 = never: the default ^uint(0)) *)
+Record pers := mkPers { p_it : itst; p_nodes : list (Z * nat); p_cnt : nat; p_ivl : nat }.
+Definition pers0 : pers := mkPers (mkIt hd_id tl_id false) [] 0 0.
+Definition set_it (p : pers) (it : itst) : pers := mkPers it (p_nodes p) (p_cnt p) (p_ivl p).
 
 Definition find_node (p : pers) (k : Z) : option nat :=
   option_map snd (find (fun e => fst e =? k) (p_nodes p)).
@@ -140,7 +144,16 @@ Definition softdelete_start (sh : shared) (p : pers) (k : Z) (n : nat) : R :=
 
 Definition insert_finish (sh : shared) (p : pers) (k : Z) (x xl : nat) : R :=
   let s := st_add_nodes (st_add_alloc (sts sh)) xl 1 in
-  (with_sts sh s, mkPers (p_it p) ((k, x) :: p_nodes p), inr (RBool true)).
+  (with_sts sh s, mkPers (p_it p) ((k, x) :: p_nodes p) (p_cnt p) (p_ivl p), inr (RBool true)).
+
+(** end of Iterator.Next with the new position [it]: count the step; every p_ivl-th step of a valid
+    iterator refreshes (new session, Seek to the item it stands on) *)
+Definition next_done (sh : shared) (p : pers) (it : itst) : R :=
+  let c := S (p_cnt p) in
+  let p' := mkPers it (p_nodes p) c (p_ivl p) in
+  if negb (Nat.eqb (p_ivl p) 0) && Nat.eqb (c mod p_ivl p) 0 && it_valid it && negb (Nat.eqb (it_curr it) tl_id)
+  then (sh, p', inl (LFP0 (key (node sh (it_curr it))) KRefresh buf0))
+  else (sh, p', inr (it_result sh it)).
 
 Definition fp_done (sh : shared) (p : pers) (k : Z) (c : fk) (b : buf) (found : bool) : R :=
   match c with
@@ -155,13 +168,13 @@ Definition fp_done (sh : shared) (p : pers) (k : Z) (c : fk) (b : buf) (found : 
   | KInsertDone x xl => insert_finish sh p k x xl
   | KDelete => if found then softdelete_start sh p k (succ_at b 0) else (sh, p, inr (RBool false))
   | KUnlink => (sh, p, inr (RBool true))
-  | KSeek =>
+  | KSeek | KRefresh =>
     let it := mkIt (pred_at b 0) (succ_at b 0) true in
-    (sh, mkPers it (p_nodes p), inr (it_result sh it))
+    (sh, set_it p it, inr (it_result sh it))
   | KIterNext last =>
     let it := mkIt (pred_at b 0) (succ_at b 0) true in
     if found && Nat.eqb last (succ_at b 0) then (sh, p, inl (LItNext it))   (* goto retry *)
-    else (sh, mkPers it (p_nodes p), inr (it_result sh it))
+    else next_done sh p it
   end.
 
 Definition begin (tid : nat) (o : op) (p : pers) (sh : shared) : R :=
@@ -176,6 +189,7 @@ Definition begin (tid : nat) (o : op) (p : pers) (sh : shared) : R :=
   | OLookup k => (sh, p, inl (LFP0 k KLookup buf0))
   | OSeekFirst => (sh, p, inl LItFirst)
   | OSeek k => (sh, p, inl (LFP0 k KSeek buf0))
+  | OSetRefresh k => (sh, mkPers (p_it p) (p_nodes p) (p_cnt p) k, inr (RBool true))
   | ONext =>
     (* callers test Valid() first; Next on an exhausted iterator is not issued *)
     if it_valid (p_it p) && negb (Nat.eqb (it_curr (p_it p)) tl_id) then (sh, p, inl (LItNext (p_it p)))
@@ -260,19 +274,19 @@ Definition step (tid : nat) (l : local) (p : pers) (sh : shared) : R :=
     else (sh1, p, inl (LSdLoad k n i marked))
   | LItFirst =>
     let it := mkIt hd_id (fst (getnext sh hd_id 0)) true in
-    (sh, mkPers it (p_nodes p), inr (it_result sh it))
+    (sh, set_it p it, inr (it_result sh it))
   | LItNext it =>
     let '(next, deleted) := getnext sh (it_curr it) 0 in
     if deleted then (sh, p, inl (LItHelp (mkIt (it_prev it) (it_curr it) true) next))
     else
       let it' := mkIt (it_curr it) next true in
-      (sh, mkPers it' (p_nodes p), inr (it_result sh it'))
+      next_done sh p it'
   | LItHelp it next =>
     let '(sh1, ok) := dcas sh (it_prev it) 0 (it_curr it) next false in
     if ok then
       let sh2 := with_sts sh1 (st_add_nodes (st_add_soft (sts sh1) (-1)) (lvl (node sh1 (it_curr it))) (-1)) in
       let it' := mkIt (it_prev it) next true in
-      (sh2, mkPers it' (p_nodes p), inr (it_result sh2 it'))
+      next_done sh2 p it'
     else
       (with_sts sh1 (st_add_readc (sts sh1)), p,
        inl (LFP0 (key (node sh1 (it_curr it))) (KIterNext (it_curr it)) buf0))
